@@ -607,6 +607,15 @@ def check(case):
         out = reencode(kind, pdata, ctx)
     except DECODE_ERRORS:
         return good(nt=nt, labels=labels + ["rejected"])
+    except AssertionError:
+        if kind == "msg" and pdata[0] == 12:
+            # ServerKeyExchange naming hash or signature algorithm 0: a
+            # value question (unknown algorithm), the framing was fine
+            import traceback
+            tb = traceback.extract_tb(sys.exc_info()[2])
+            if tb[-1].name == "write":
+                return good(nt=False, labels=labels + ["unknown-algorithm"])
+        raise
     if out == pdata:
         return good(nt=nt, labels=labels + ["still-wellformed"])
     if cls == "next_protocol" and len(out) == len(pdata) and kind == "msg":
@@ -1200,10 +1209,11 @@ def check_raw(case):
                 return good(nt=False, labels=labels + ["value-normalised"])
         except DECODE_ERRORS:
             pass
-    if kind == "msg" and data[0] == HandshakeType.next_protocol and \
-            len(out) == len(data):
+    if kind == "msg" and data[0] == HandshakeType.next_protocol:
+        # the padding is opaque and its length the sender's choice; the
+        # writer always pads to a multiple of 32
         n = data[4] if len(data) > 4 else 0
-        if out[:5 + n + 1] == data[:5 + n + 1]:
+        if out[4:5 + n] == data[4:5 + n]:
             return good(nt=False, labels=labels + ["opaque-padding"])
     return bad("lenient-parse:%s:raw" % cls,
                "input %s accepted, re-encodes as %s" % (
